@@ -38,10 +38,14 @@ class C14(EngineBase):
             "p_ctor_phases": r.choice([0.0, 0.0, 0.15]),
             # thorough: some calls are crashed at *every* line, not one
             "p_all_lines": (0.15 if tier == "thorough" and crash_batch else 0.0),
+            # knob: the library's SYMMRAY_DEBUG self-checks switched on for the
+            # whole run (they must not touch operands either)
+            "debug": r.random() < 0.1,
         }
 
     def start(self, config):
-        core.world_reset(config["maxsize"], config["maxsectors"])
+        core.world_reset(config["maxsize"], config["maxsectors"],
+                         debug=bool(config.get("debug", False)))
         st = State()
         st.config = config
         st.heap = {}
